@@ -465,3 +465,29 @@ package randomness
 //@     unroll
 //@   assert end loop 1: emod(tmp, 128) == pat(bits@pre, (i-1)*7, 7)
 //@   assert end loop 3: emod(tmp, 128) == pat(bits@pre, (i-1)*7, 7)
+
+// ---------------------------------------------------------------------------------------------
+// discrete_fourier_transform.go, utils.go (ceilPow2)
+// Proved relative to fft.Transform's contract (index safety, frame); that Transform is the DFT is bounded (C19).
+
+//@ func ceilPow2
+//@   requires N <= 1099511627776
+//@   modifies nothing
+//@   ensures r0 == pow2(lg(r0)) && lg(r0) >= 1 && N <= r0 && (lg(r0) == 1 || pow2(lg(r0) - 1) < N)
+//@   loop 1
+//@     invariant i == pow2(lg(i)) && lg(i) >= 1 && (lg(i) == 1 || pow2(lg(i) - 1) < N) && i >= 2
+//@     decreases N - i
+//@   assert end loop 1: pow2(lg(ediv(i, 2)) + 1) == i
+
+//@ func DiscreteFourierTransformTest
+//@   requires 2 <= len(bits) && len(bits) <= 134217728
+//@   modifies nothing
+//@   pure
+//@   loop 1
+//@     invariant 0 <= i && i <= n && len(rr) == N && off(rr) == 0 && fresh(rr) && n <= N
+//@     invariant forall t int :: {rr[t]} 0 <= t && t < i ==> rr[t] == cx(bits[t] ? 1.0 : -1.0, 0.0)
+//@     invariant forall t int :: {rr[t]} i <= t && t < N ==> rr[t] == cx(0.0, 0.0)
+//@   assert after loop 1: 2 <= N && N <= 134217728 && N == pow2(lg(N))
+//@   loop 2
+//@     invariant 0 <= i && (n/2 - 1 >= 0 ==> i <= n/2 - 1)
+//@     invariant N_1 == cntbelow(rr, T, i) && 0 <= N_1 && N_1 <= i
